@@ -114,8 +114,13 @@ CLAIMED["C14"] = (
     "Trusted: the contract that stands for the pointer-array scan (_find_adjacent_atoms: the cells within +-cell_radius of the query's cell are visited) - that C code itself is only exercised as a compiled black box; the exact-rational oracle in obligations/sx_c14.py; z3's floating-point theory; the kx lowering (validated against the compiled module on concrete vectors each run, including the rounding counterexample). Outside: more than 3 atoms per configuration, float32 rounding in 3-D (the float obligation is one axis), periodic boxes in the S-class part, pairs within 1e-4 of the radius in periodic boxes whose fractional transformation is inexact, |x| > 1024.",
     "DESIGN.md §4 C14")
 
+CLAIMED["C15"] = (
+    "bounded symbolic execution of geometry.displacement / _displacement_orthogonal_box / _displacement_triclinic_box and the box.py fraction helpers (real modules loaded through the SX rewrite) over exact rationals and reals with z3 (linear integer and nonlinear real arithmetic)",
+    "Bounded model checking of the PERIODIC clauses of the property only. Class S: for 5-6 concrete cells, displacement(0, q) for every grid point q differs from q by a lattice vector, and is the shortest image for orthorhombic cells; the triclinic kernel on EVERY real fraction vector in [0,1)^3 returns one of its eight candidates and no other image is shorter than half the smallest cell height; move_inside_box lands in [0,1) fractional and moves by lattice vectors; fraction conversion is inverse.",
+    "Trusted: vf/sx/rnp.py, the rational numpy stand-in (counterexamples are replayed on real numpy before they count); exact inverse for numpy.linalg.inv; z3 nlsat. NOT covered (no encodable arithmetic: trigonometry, LAPACK, float rounding): distance/angle/dihedral equal their definitions and are rigid-motion invariant, index_* variants, unit-cell <-> box-vector conversion, remove_pbc, per-model boxes, symbolic cell vectors. These clauses are undecided by this check.",
+    "DESIGN.md §4 C15")
+
 NOT_APPLICABLE = {
-    "C15": "float results of numpy/LAPACK (linalg solves, trigonometry, argmin over float images): no integer/string logic in front of the C boundary that a solver could reason about; an abstraction over the reals would verify a model of numpy, not the code (DESIGN §6)",
     "C16": "optimality/properness come from np.linalg.svd/det (LAPACK behind FFI) on float32 data; no encodable source; z3 terms cannot pass astype(float32) (DESIGN §6)",
 }
 
